@@ -668,6 +668,13 @@ fn oracle(scn: &ReqRep, g: &World, out: &Outcome, ids: &Ids, viol: &mut Vec<RVio
         let copies: Vec<RViol> = viol.iter().filter(|v| v.prop == "C02").map(|v| RViol { prop: "C10", clause: format!("traffic-affected:{}", v.clause), msg: v.msg.clone() }).collect();
         viol.extend(copies);
     }
+    if out.done.is_some() && out.closed_at.is_none() {
+        viol.push(RViol {
+            prop: p02,
+            clause: "reqrep:finished-while-open".into(),
+            msg: "the router future completed although the registration channel is still open: the server keeps handing later registrations of this topic to a router that no longer exists".into(),
+        });
+    }
     if scn.close && out.closed_at.is_some() && out.done.is_none() {
         viol.push(RViol { prop: "C16", clause: "reqrep:shutdown-hang".into(), msg: "registration channel closed and every sink able to accept data, but the router never finished".into() });
     }
